@@ -19,8 +19,16 @@ and an aborted run unblocks all managed threads with `SchedAbort` (a BaseExcepti
 """
 import threading
 
-HARD_TIMEOUT = 20.0      # seconds a managed thread / the controller waits before giving up
+HARD_TIMEOUT = 30.0      # seconds the controller waits for one step / one spawn before giving up
+THREAD_TIMEOUT = 300.0   # seconds a blocked managed thread waits for its turn (>> any run)
 JOIN_TIMEOUT = 5.0
+
+
+class HarnessGlitch(Exception):
+    """the scheduler itself lost control of a run (a step did not come back within HARD_TIMEOUT
+    of wall time, or a replayed choice was not enabled): an infrastructure problem, never a
+    verdict about klongpy — deadlock and livelock of the real code are detected by the
+    enabledness test and the step budget, not by wall time"""
 
 
 class SchedAbort(BaseException):
@@ -106,8 +114,8 @@ class Sched:
         self.step_budget = step_budget
         self.trace = []             # dicts: tid, label, enabled (list of tids), plus per-step notes
         self.step = -1              # index of the step being executed
-        self.status = None          # ok | deadlock | budget | hang
-        self.ntasks = 0
+        self.status = None          # ok | deadlock | budget | hang | bad-choice
+        self.diag = ""
 
     # ---- called from managed threads
     def me(self):
@@ -137,7 +145,7 @@ class Sched:
             t.ready.set()
         else:
             self.ctl.release()
-        if not t.sem.acquire(timeout=HARD_TIMEOUT) or self.abort:
+        if not t.sem.acquire(timeout=THREAD_TIMEOUT) or self.abort:
             raise SchedAbort()
         t.state = "running"
 
@@ -153,6 +161,7 @@ class Sched:
 
         def wrapper():
             self.tls.mt = mt
+            mt.ident = threading.get_ident()
             try:
                 body()
             except SchedAbort:
@@ -172,8 +181,20 @@ class Sched:
         _Worker.run_job(wrapper, mt)
         if not mt.ready.wait(HARD_TIMEOUT):
             self.status = "hang"
+            self.diag = self.dump(f"spawned thread {tid} did not reach its first point")
             self.abort = True
         return mt
+
+    def dump(self, what):
+        import sys
+        import traceback
+        out = [what, "states: " + ", ".join(f"{t.tid}:{t.state}:{t.label}" for t in self.threads.values())]
+        frames = sys._current_frames()
+        for t in self.threads.values():
+            fr = frames.get(getattr(t, "ident", None))
+            if fr is not None:
+                out.append(f"--- {t.tid}\n" + "".join(traceback.format_stack(fr)[-6:]))
+        return "\n".join(out)[-4000:]
 
     # ---- controller
     def enabled_now(self):
@@ -213,6 +234,7 @@ class Sched:
             tid = chooser(len(self.trace), en, prev)
             if tid not in en:
                 self.status = "bad-choice"
+                self.diag = f"choice {tid} at step {len(self.trace)} not in enabled set {en}"
                 return self.status
             t = self.threads[tid]
             self.trace.append(dict(tid=tid, label=t.label, enabled=list(en), prev=prev))
@@ -220,6 +242,7 @@ class Sched:
             t.sem.release()
             if not self.ctl.acquire(timeout=HARD_TIMEOUT):
                 self.status = "hang"
+                self.diag = self.dump(f"step {len(self.trace) - 1} ({tid} {t.label}) did not come back")
                 self.abort = True
                 return self.status
             prev = tid
@@ -307,14 +330,15 @@ class FakeExecutor:
 
 
 class FakeLock:
-    def __init__(self, sched, on_acquire=None, on_release=None):
+    def __init__(self, sched, on_acquire=None, on_release=None, label="lock"):
         self.sched = sched
+        self.label = label
         self.held = False
         self.on_acquire = on_acquire
         self.on_release = on_release
 
     def acquire(self, blocking=True, timeout=-1):
-        self.sched.point("lock", enabled=lambda: not self.held)
+        self.sched.point(self.label, enabled=lambda: not self.held)
         if self.held:               # only reachable from an unmanaged thread
             raise RuntimeError("FakeLock contended outside the scheduler")
         self.held = True
@@ -400,12 +424,19 @@ class _PathProxy:
     def __init__(self, sched, real):
         self._s, self._r = sched, real
 
+    # exists/getsize are scheduling points of get_file (client threads) only: a worker that
+    # probes the file system before writing (e.g. to decide which directories to fsync) reads
+    # nothing the cache's behaviour depends on
     def exists(self, p):
-        self._s.point("exists")
+        t = self._s.me()
+        if t is not None and t.kind == "client":
+            self._s.point("exists")
         return self._r.exists(p)
 
     def getsize(self, p):
-        self._s.point("getsize")
+        t = self._s.me()
+        if t is not None and t.kind == "client":
+            self._s.point("getsize")
         return self._r.getsize(p)
 
     def __getattr__(self, k):
@@ -418,8 +449,27 @@ class OsProxy:
         self.path = _PathProxy(sched, real.path)
 
     def fsync(self, fd):
-        self._s.point("fsync")
+        # one scheduling point per write task: the fsync of the data file; later fsyncs of the
+        # same task (directories) have no effect on what any thread can observe
+        t = self._s.me()
+        if t is not None and not getattr(t, "fsynced", False):
+            t.fsynced = True
+            self._s.point("fsync")
         return self._r.fsync(fd)
+
+    def __getattr__(self, k):
+        return getattr(self._r, k)
+
+
+class ThreadingProxy:
+    """stands in for the `threading` module of klongpy.db.df_cache: per-file append locks become
+    scheduler-controlled locks (label `flock`)"""
+
+    def __init__(self, sched, real):
+        self._s, self._r = sched, real
+
+    def Lock(self):
+        return FakeLock(self._s, label="flock")
 
     def __getattr__(self, k):
         return getattr(self._r, k)
